@@ -41,7 +41,7 @@ ASSUMPTIONS = [
     "a method is 'not applicable to the call' by arity, by a required keyword the call does not supply, or by a class none of the probed arguments is an instance of",
 ]
 REPORT_COUNTERS = ["programs", "configs_run", "vector_comparisons", "cfg_registration_order", "cfg_iteration_order",
-                   "cfg_added_inapplicable", "cfg_subprocess", "programs_multi_applicable", "subprocess_programs",
+                   "cfg_added_inapplicable", "cfg_removed_bystander", "cfg_subprocess", "programs_multi_applicable", "subprocess_programs",
                    "asymmetric_pairs_seen", "distinct_permuter_orders", "tie_order_sensitive_programs"]
 
 
@@ -49,7 +49,7 @@ def plan(tier):
     n = 960 if tier == "quick" else 24000
     return {"cases": n, "params": {"sub": 128 if tier == "quick" else 640}, "timeout_s": 1500 if tier == "quick" else 7200,
             "min": {"configs_run": 5_000, "cfg_iteration_order": 1_500, "cfg_registration_order": 1_000,
-                    "cfg_added_inapplicable": 1_000, "cfg_subprocess": 200, "programs_multi_applicable": 200}}
+                    "cfg_added_inapplicable": 1_000, "cfg_removed_bystander": 1_000, "cfg_subprocess": 200, "programs_multi_applicable": 200}}
 
 
 # ------------------------------------------------------------------------------------------- generation
@@ -108,6 +108,13 @@ def gen_case(rng, params, idx):
             continue
         seen.add(k)
         methods.append({"mid": i, "pos": pos, "kw": [], "prio": prio, "kind": "leaf"})
+    if npos == 2 and rng.random() < 0.35:
+        # a twin: the same types and priority as another method, but a distinct signature (last parameter optional)
+        src = rng.choice(methods)
+        if not any(p.get("opt") for p in src["pos"]):
+            twin = {"mid": len(methods) + 10, "pos": [dict(p) for p in src["pos"]], "kw": [], "prio": src["prio"], "kind": "leaf"}
+            twin["pos"][-1]["opt"] = True
+            methods.append(twin)
     spec = {"hier": hier, "methods": methods, "npos": npos, "flavour": flavour}
     vals = gen.values_for(hier, builtin=(flavour == "dep"))
     cg = gen.CallGen(spec, vals)
@@ -121,7 +128,7 @@ def gen_case(rng, params, idx):
     for e in range(3):
         kind = rng.choice(["arity+", "arity-", "kw"])
         base = rng.choice(methods)
-        pos = [dict(p) for p in base["pos"]]
+        pos = [{k: v for k, v in p.items() if k != "opt"} for p in base["pos"]]
         for p in pos:
             if isinstance(p["t"], str) and rng.random() < 0.7:
                 subs = [n for n in names if n != p["t"]]
@@ -168,9 +175,17 @@ def _mk_permuter(mode, seed=0):
     return perm, mkey
 
 
-def _vector(spec, env, methods, permuter, tag="c06"):
+def _vector(spec, env, methods, permuter, tag="c06", remove=(), warm=False):
     boot._verif.install(permuter=permuter)
     prog = Program(dict(spec, methods=methods), env=env, tag=tag)
+    if remove:
+        # history: the bystanders were registered (and possibly used) and are unregistered again
+        if warm:
+            for call in spec["calls"][:3]:
+                prog.call(call)
+        for mid in remove:
+            prog.ov.unregister(prog.fns[mid])
+        prog.bind()
     out = []
     for call in spec["calls"]:
         o = prog.call(call)
@@ -355,6 +370,26 @@ def check_case(spec, res):
             except TypeError:
                 continue    # naming rules of the entry point reject this combination of signatures
             compare("added_inapplicable", vec, _frozen_vector(spec, env, ext, None), [e["mid"] for e in extras[:k]], ext)
+        # (3b) bystanders (applicable or not) that were registered and unregistered again: same final set
+        ex = spec["extras"]
+        if ex:
+            r2 = random.Random(spec["perm_seeds"][1])
+            for trial in range(2):
+                order = list(methods)
+                for e in ex[: 1 + trial]:
+                    order.insert(r2.randrange(len(order) + 1), e)
+                if trial:
+                    core = [m for m in order if m["mid"] < 90]
+                    r2.shuffle(core)
+                    it = iter(_reg_orders(methods, r2, limit=3)[-1])
+                    order = [next(it) if m["mid"] < 90 else m for m in order]
+                try:
+                    vec = _vector(spec, env, order, canonical_permuter, remove=[e["mid"] for e in ex[: 1 + trial]],
+                                  warm=bool(trial))
+                except TypeError:
+                    continue
+                kept = [m for m in order if m["mid"] < 90]
+                compare("removed_bystander", vec, _frozen_vector(spec, env, kept, None), [m["mid"] for m in order])
     finally:
         boot._verif.install(permuter=None)
     # how many programs are sensitive to the tie order at all (evidence; F16's reach)
